@@ -257,4 +257,11 @@ def createCoinbaseOutputs (p : Params) (iter : KMap → KMap) (height : Nat) (sc
   if p.epoch = 0 then none else
   if height % p.epoch = 1 ∧ height ≠ 1 then some (payRewards script (iter rewards) [first]) else some [first]
 
+/-- `createCoinbaseTx` as a whole: after building the outputs the transaction is serialized
+    (`txData.MarshalText()`), which fails for an amount above 2^63-1 (varint63) -/
+def createCoinbaseTx (p : Params) (iter : KMap → KMap) (height : Nat) (script : Key) (rewards : KMap) : Outcome (List COut) :=
+  match createCoinbaseOutputs p iter height script rewards with
+  | none => .panic
+  | some outs => if outs.any (fun o => o.amount > 9223372036854775807) then .err else .ok outs
+
 end BytomModel.Model.Checkpoint
